@@ -196,3 +196,16 @@ Theorem C11_x86_substitute_simultaneous :
       (forall k, (forall p, slot_ok p -> k <> key (slot_addr sp p)) -> PM.find k (stack s') = PM.find k (stack s)).
 Proof. exact x86_substitute_ok. Qed.
 Print Assumptions C11_x86_substitute_simultaneous.
+
+(* AArch64 and RISC-V: their Temporary orders and numberings satisfy `backend_ok`, so
+   C11_substitute_graph_indeg1 / C11_substitute_graph_edges / C11_weakening_contraction_counts hold for
+   their models too.  At the instruction level the property is checked for these two back ends (the
+   emitted instructions are executed on Sem/A64Sem.v and Sem/RVSem.v, exhaustively for m,n <= 5), not
+   proved. *)
+From SCC Require Model.A64 Model.RV Proof.SubstBackends.
+Theorem C11_a64_backend_ok : backend_ok A64.a64_backend.
+Proof. exact SubstBackends.a64_backend_ok. Qed.
+Print Assumptions C11_a64_backend_ok.
+Theorem C11_rv_backend_ok : backend_ok RV.rv_backend.
+Proof. exact SubstBackends.rv_backend_ok. Qed.
+Print Assumptions C11_rv_backend_ok.
